@@ -417,3 +417,30 @@ def mlkem_bound_into_tag(ctx):
     on all sides and K2 enters H (C07.binding)."""
     c07 = __import__('analyses.props.c07', fromlist=['binding'])
     c07.binding(ctx)
+
+
+@rule('C11', 'hint-only-for-new-attribute')
+def hint_only_for_new_attribute(ctx):
+    """An edit never changes the declared hint of the attributes it does not name: when Dimension::add_attribute rebuilds a
+    hierarchy, the existing attributes are moved as they are — Attribute::new is called for the new attribute only (once per
+    dimension kind, outside any loop / per-element closure); and disabling writes the status alone (C03.disable-only-status)."""
+    from .c13 import loop_depths
+    from . import c03
+    F = ctx.F
+    key = 'abe_policy::dimension::Dimension::add_attribute'
+    rb = F.fn(key)
+    n = 0
+    for fb in lib.family_ext(F, key):
+        news = fb.calls(r'dimension::Attribute::new$')
+        if not news:
+            continue
+        depth, _dom = loop_depths(fb)
+        for c in news:
+            n += 1
+            per_elem = fb.kind == 'Closure' and any(cc.is_(r'^std::iter::Iterator::') for (_pb, cc, _i) in lib.closure_consumers(F, fb))
+            ctx.check(not per_elem and depth.get(c.b, 0) == 0, key, 'Attribute::new for the new attribute only',
+                      'add_attribute builds attributes with Attribute::new once per existing element (line %d): the attributes that are '
+                      'merely re-ranked get the hint (and a fresh status) of the attribute being added' % c.ln,
+                      'outside loops and per-element closures', c.where())
+    ctx.floor(n, 2, 'Attribute::new calls in Dimension::add_attribute')
+    c03.disable_only_status(ctx)
